@@ -431,3 +431,5 @@ def check_property(ctx, pid):
     ctx.floor(rule, "regions of %s in the effect table" % pid, len(owners) + len(arms), 1)
     check_regions(ctx, rule, owners, arms)
     check_callers(ctx, rule, fns)
+    from . import refusals
+    refusals.check_property(ctx, pid)     # R<nn>.X: no new place where the modules of this property construct an error
